@@ -152,7 +152,8 @@ class URLInfo(object):
         if default_scheme and '.' in scheme or scheme == 'localhost':
             # Maybe something like example.com:8080/mystuff or
             # maybe localhost:8080/mystuff
-            remaining = '{}:{}'.format(scheme, remaining)
+            # (The text as written: only the host is case-insensitive.)
+            remaining = url
             scheme = default_scheme
 
         if not is_ascii_compatible_encoding(encoding):
